@@ -126,6 +126,12 @@ pub struct GenOpts {
     pub hot_clusters: u32,
     pub allow_unaligned_vsize: bool,
     pub max_write_clusters: u32,
+    /// percent of runs opening the top device read-only
+    pub read_only_pct: u32,
+    /// percent of runs in which a concurrent batch may contain a discard and
+    /// a write (of another client) on the same guest cluster (known finding
+    /// KF02 makes those runs uninformative about anything else)
+    pub racy_discard_pct: u32,
 }
 
 impl Default for GenOpts {
@@ -154,6 +160,8 @@ impl Default for GenOpts {
             hot_clusters: 6,
             allow_unaligned_vsize: true,
             max_write_clusters: 5,
+            read_only_pct: 0,
+            racy_discard_pct: 30,
         }
     }
 }
@@ -374,7 +382,7 @@ pub fn gen_cfg(rng: &mut Rng, o: &GenOpts) -> Cfg {
         poll_first_pct,
         punch_unsupported: rng.chance(1, 5),
         hash_seed: rng.next(),
-        read_only: false,
+        read_only: rng.below(100) < o.read_only_pct as u64,
     }
 }
 
@@ -604,12 +612,14 @@ pub fn gen_probe(rng: &mut Rng, cfg: &Cfg) -> Op {
 pub fn gen_steps(rng: &mut Rng, cfg: &Cfg, o: &GenOpts) -> Vec<Step> {
     let g = OpGen::new(rng, cfg, o);
     let n = rng.range(o.min_ops as u64, o.max_ops as u64);
+    let allow_racy = rng.below(100) < o.racy_discard_pct as u64;
     let mut steps = Vec::new();
     let mut count = 0;
     while count < n {
         if rng.below(100) < o.par_pct as u64 {
             let nc = rng.range(2, o.max_clients.max(2) as u64);
             let mut clients = vec![];
+            let _ = allow_racy;
             for _ in 0..nc {
                 let k = rng.range(1, o.max_ops_per_client as u64);
                 let mut ops = vec![];
@@ -624,9 +634,50 @@ pub fn gen_steps(rng: &mut Rng, cfg: &Cfg, o: &GenOpts) -> Vec<Step> {
                 }
                 clients.push(ops);
             }
+            if !allow_racy {
+                // replace discards that share a guest cluster with a write of
+                // another client by reads of the same range
+                let cs = cfg.cs();
+                let mut wr: Vec<(usize, u64, u64)> = vec![];
+                for (ci, c) in clients.iter().enumerate() {
+                    for op in c {
+                        if let Op::Write { off, len } = op {
+                            wr.push((ci, off / cs, (off + *len as u64 - 1) / cs));
+                        }
+                    }
+                }
+                for (ci, c) in clients.iter_mut().enumerate() {
+                    for op in c.iter_mut() {
+                        if let Op::Discard { off, len } = op {
+                            let end = off.saturating_add(*len).min(cfg.vsize());
+                            let a = off.div_ceil(cs);
+                            let b = end / cs;
+                            let clash = a < b
+                                && wr.iter().any(|(wc, wa, wb)| *wc != ci && *wa < b && a <= *wb);
+                            if clash {
+                                let bs = cfg.bs();
+                                let o2 = (*off / bs * bs).min(cfg.vend().saturating_sub(bs));
+                                *op = Op::Read {
+                                    off: o2,
+                                    len: bs as u32,
+                                };
+                            }
+                        }
+                    }
+                }
+            }
             steps.push(Step::Par(clients));
         } else {
-            steps.push(Step::Seq(g.op(rng, cfg, o)));
+            let mut op = g.op(rng, cfg, o);
+            if cfg.read_only {
+                // on a read-only device modifying calls are validation probes
+                op = match op {
+                    Op::Write { off, len } => Op::Probe { kind: 1, off, len: len as u64 },
+                    Op::Discard { off, len } => Op::Probe { kind: 2, off, len },
+                    o => o,
+                };
+            }
+            steps.push(Step::Seq(op));
             count += 1;
         }
     }
